@@ -544,7 +544,7 @@ func checkC06(p *core.Program, r *core.Report) {
 			nDirty++
 		}
 	}
-	r.Require("dirtying_call_sites", nDirty, 12)
+	r.Require("dirtying_call_sites", nDirty, 6)
 
 	for _, ent := range []struct {
 		fn    *ssa.Function
